@@ -1,8 +1,15 @@
 package main
 
 import (
+	"encoding/json"
+	"flag"
 	"fmt"
+	"os"
+	"os/exec"
+	"path/filepath"
+	"sort"
 	"strings"
+	"sync"
 
 	"annverif/core"
 	"annverif/equiv"
@@ -11,13 +18,355 @@ import (
 
 var extraCmds = map[string]func([]string) int{}
 
-func thoroughExtras(prop, repo string, rep *core.Report) int { return 0 }
+// ---------------------------------------------------------------------------------------------
+// Mutant index: /verif/mutants/index.json lists patches (inverse-of-fix commits and the seeded
+// changes kept under /verif/seeded) with the properties whose check is expected to report them.
 
-func cmdExplain(args []string) int { fmt.Println("not yet"); return 2 }
+type Mutant struct {
+	ID         string   `json:"id"`
+	Patch      string   `json:"patch"` // relative to the verif dir
+	Properties []string `json:"properties"`
+	What       string   `json:"what"`
+}
 
-func cmdSelftest(args []string) int { fmt.Println("not yet"); return 2 }
+func loadMutants(vd string) ([]Mutant, error) {
+	b, err := os.ReadFile(filepath.Join(vd, "mutants", "index.json"))
+	if err != nil {
+		return nil, err
+	}
+	var ms []Mutant
+	if err := json.Unmarshal(b, &ms); err != nil {
+		return nil, err
+	}
+	return ms, nil
+}
+
+// overlayFromPatch applies a unified diff to copies of the files it touches (never to the repository)
+// and returns the go/packages overlay. ok=false when the patch no longer applies to the current tree.
+func overlayFromPatch(repo, patch string) (map[string][]byte, bool, error) {
+	data, err := os.ReadFile(patch)
+	if err != nil {
+		return nil, false, err
+	}
+	var files []string
+	for _, l := range strings.Split(string(data), "\n") {
+		if strings.HasPrefix(l, "+++ b/") {
+			files = append(files, strings.TrimPrefix(l, "+++ b/"))
+		}
+	}
+	if len(files) == 0 {
+		return nil, false, fmt.Errorf("no files in patch %s", patch)
+	}
+	tmp, err := os.MkdirTemp("", "annverif-mutant-")
+	if err != nil {
+		return nil, false, err
+	}
+	defer os.RemoveAll(tmp)
+	for _, f := range files {
+		src, err := os.ReadFile(filepath.Join(repo, f))
+		if err != nil {
+			return nil, false, nil // file gone: patch does not apply
+		}
+		os.MkdirAll(filepath.Dir(filepath.Join(tmp, f)), 0o755)
+		if err := os.WriteFile(filepath.Join(tmp, f), src, 0o644); err != nil {
+			return nil, false, err
+		}
+	}
+	abs, _ := filepath.Abs(patch)
+	cmd := exec.Command("git", "apply", "--unsafe-paths", "--directory="+tmp, abs)
+	cmd.Dir = tmp
+	cmd.Env = append(os.Environ(), "GIT_CEILING_DIRECTORIES="+filepath.Dir(tmp), "GIT_DIR=/nonexistent")
+	if out, err := cmd.CombinedOutput(); err != nil {
+		// fall back to patch(1)
+		c2 := exec.Command("patch", "-p1", "-s", "-i", abs)
+		c2.Dir = tmp
+		if out2, err2 := c2.CombinedOutput(); err2 != nil {
+			_ = out
+			_ = out2
+			return nil, false, nil
+		}
+	}
+	ov := map[string][]byte{}
+	for _, f := range files {
+		b, err := os.ReadFile(filepath.Join(tmp, f))
+		if err != nil {
+			return nil, false, err
+		}
+		ov[filepath.Join(repo, f)] = b
+	}
+	return ov, true, nil
+}
+
+type mutantResult struct {
+	ID       string   `json:"id"`
+	Property string   `json:"property"`
+	Applies  bool     `json:"applies"`
+	Detected bool     `json:"detected"`
+	Keys     []string `json:"reported_keys,omitempty"`
+	Err      string   `json:"error,omitempty"`
+	What     string   `json:"what,omitempty"`
+}
+
+// cmdMutant: annverif mutant -property Cxx -patch <file> [-repo /repo]; prints one JSON line.
+// The patched files exist only in the loader's overlay; /repo is not modified.
+func cmdMutant(args []string) int {
+	fs := flag.NewFlagSet("mutant", flag.ExitOnError)
+	prop := fs.String("property", "", "property")
+	patch := fs.String("patch", "", "patch file")
+	repo := fs.String("repo", "/repo", "repository")
+	id := fs.String("id", "", "mutant id")
+	fs.Parse(args)
+	res := mutantResult{ID: *id, Property: *prop}
+	emit := func() int {
+		b, _ := json.Marshal(res)
+		fmt.Println(string(b))
+		return 0
+	}
+	ov, ok, err := overlayFromPatch(*repo, *patch)
+	if err != nil {
+		res.Err = err.Error()
+		return emit()
+	}
+	res.Applies = ok
+	if !ok {
+		return emit()
+	}
+	rep, _, err := runProperty(*prop, "quick", *repo, ov, "")
+	if err != nil {
+		// a mutant that no longer type-checks or that makes the analyser give up is "reported" in the sense
+		// that the check does not pass (exit 2: no verdict)
+		res.Err = err.Error()
+		res.Detected = true
+		return emit()
+	}
+	known, _ := core.LoadKnown(filepath.Join(verifDir(), "known_findings.json"))
+	kn := map[string]bool{}
+	if known != nil {
+		for _, k := range known.Findings {
+			if k.Status == "known" {
+				kn[k.Key] = true
+			}
+		}
+	}
+	rep.Finish(core.FinishOpts{VerifDir: verifDir(), Quiet: true, NoWrite: true, Known: known})
+	for _, k := range rep.ViolatedKeys() {
+		if !kn[k] {
+			res.Keys = append(res.Keys, k)
+		}
+	}
+	res.Detected = len(res.Keys) > 0
+	if len(res.Keys) > 6 {
+		res.Keys = append(res.Keys[:6], fmt.Sprintf("... %d more", len(res.Keys)-6))
+	}
+	return emit()
+}
+
+// runMutants runs the mutants registered for prop ("" = all), each in its own process, at most par at once.
+func runMutants(vd, repo, prop string, par int) ([]mutantResult, error) {
+	ms, err := loadMutants(vd)
+	if err != nil {
+		return nil, err
+	}
+	type job struct {
+		m Mutant
+		p string
+	}
+	var jobs []job
+	for _, m := range ms {
+		for _, p := range m.Properties {
+			if prop == "" || p == prop {
+				jobs = append(jobs, job{m, p})
+			}
+		}
+	}
+	exe, _ := os.Executable()
+	out := make([]mutantResult, len(jobs))
+	sem := make(chan bool, par)
+	var wg sync.WaitGroup
+	for i, j := range jobs {
+		wg.Add(1)
+		sem <- true
+		go func(i int, j job) {
+			defer wg.Done()
+			defer func() { <-sem }()
+			cmd := exec.Command(exe, "mutant", "-property", j.p, "-patch", filepath.Join(vd, j.m.Patch), "-repo", repo, "-id", j.m.ID)
+			cmd.Env = append(os.Environ(), "VERIF_DIR="+vd)
+			b, err := cmd.Output()
+			r := mutantResult{ID: j.m.ID, Property: j.p}
+			if err != nil {
+				r.Err = err.Error()
+			} else if e := json.Unmarshal(lastLine(b), &r); e != nil {
+				r.Err = "bad output: " + e.Error()
+			}
+			r.What = j.m.What
+			out[i] = r
+		}(i, j)
+	}
+	wg.Wait()
+	sort.Slice(out, func(a, b int) bool { return out[a].ID+out[a].Property < out[b].ID+out[b].Property })
+	return out, nil
+}
+
+func lastLine(b []byte) []byte {
+	s := strings.TrimSpace(string(b))
+	if i := strings.LastIndexByte(s, '\n'); i >= 0 {
+		s = s[i+1:]
+	}
+	return []byte(s)
+}
+
+// thoroughExtras: (a) the same rules under a second build configuration (GOARCH=386, cgo off: the
+// build-tagged and pure-Go variants of files); a violation there is a violation. (b) checker QA: the
+// mutant campaign of the property — a missed mutant is recorded as a checker gap in the evidence, it is
+// not a violation of the property.
+func thoroughExtras(prop, repo string, rep *core.Report) int {
+	code := 0
+	rep2, p2, err := runProperty(prop, "thorough", repo, nil, "386")
+	if err != nil {
+		rep.Extra["second_configuration"] = map[string]interface{}{"config": "GOARCH=386 CGO_ENABLED=0", "error": err.Error()}
+		fmt.Fprintf(os.Stderr, "annverif: NO VERDICT for %s under GOARCH=386: %v\n", prop, err)
+		code = 2
+	} else {
+		known, _ := core.LoadKnown(filepath.Join(verifDir(), "known_findings.json"))
+		kn := map[string]bool{}
+		if known != nil {
+			for _, k := range known.Findings {
+				if k.Status == "known" {
+					kn[k.Key] = true
+				}
+			}
+		}
+		rep2.Finish(core.FinishOpts{VerifDir: verifDir(), Quiet: true, NoWrite: true, Known: known})
+		mine := map[string]bool{}
+		for _, k := range rep.ViolatedKeys() {
+			mine[k] = true
+		}
+		var only []string
+		for _, k := range rep2.ViolatedKeys() {
+			if !mine[k] && !kn[k] {
+				only = append(only, k)
+			}
+		}
+		rep.Extra["second_configuration"] = map[string]interface{}{
+			"config": "GOARCH=386 CGO_ENABLED=0", "packages_loaded": len(p2.AllPkgs), "obligations": len(rep2.Obs),
+			"not_discharged_only_there": only,
+		}
+		// obligations violated only under the second configuration are added to the report
+		for _, ob := range rep2.Obs {
+			for _, k := range only {
+				if ob.Key == k {
+					rule := rep.Rule(strings.TrimPrefix(ob.Rule, prop+"/"), "", 0)
+					rep.Undecided(rule, "[GOARCH=386]"+strings.TrimPrefix(ob.Key, ob.Rule+"/"), ob.Pos, ob.Func, ob.Detail)
+				}
+			}
+		}
+	}
+	res, err := runMutants(verifDir(), repo, prop, 4)
+	if err != nil {
+		rep.Extra["checker_selftest"] = map[string]interface{}{"error": err.Error()}
+		return code
+	}
+	var gaps []string
+	det, skipped := 0, 0
+	for _, r := range res {
+		switch {
+		case !r.Applies && r.Err == "":
+			skipped++
+		case r.Detected:
+			det++
+		default:
+			gaps = append(gaps, r.ID)
+		}
+	}
+	rep.Extra["checker_selftest"] = map[string]interface{}{
+		"what": "every registered change that breaks this property (inverse of each fix commit; seeded changes under /verif/seeded) is applied through the loader's overlay — /repo is not modified — and the property's rules must report it",
+		"mutants": len(res), "reported": det, "skipped_patch_no_longer_applies": skipped, "checker_gaps": gaps, "results": res,
+	}
+	fmt.Printf("annverif: %s thorough: second configuration done; %d registered breaking changes replayed through the overlay, %d reported, %d skipped, gaps=%v\n", prop, len(res), det, skipped, gaps)
+	return code
+}
+
+// cmdExplain re-decides the obligation recorded in a replay file on the current tree.
+func cmdExplain(args []string) int {
+	if len(args) < 1 {
+		fmt.Fprintln(os.Stderr, "usage: annverif explain <replay.json> [-repo /repo]")
+		return 2
+	}
+	repo := "/repo"
+	if len(args) >= 3 && args[1] == "-repo" {
+		repo = args[2]
+	}
+	b, err := os.ReadFile(args[0])
+	if err != nil {
+		fmt.Fprintln(os.Stderr, err)
+		return 2
+	}
+	var rp struct {
+		Property   string          `json:"property"`
+		Obligation core.Obligation `json:"obligation"`
+		RuleText   string          `json:"rule_text"`
+	}
+	if err := json.Unmarshal(b, &rp); err != nil || rp.Property == "" {
+		fmt.Fprintln(os.Stderr, "not a replay file:", err)
+		return 2
+	}
+	rep, _, err := runProperty(rp.Property, "quick", repo, nil, "")
+	if err != nil {
+		fmt.Fprintf(os.Stderr, "annverif: NO VERDICT: %v\n", err)
+		return 2
+	}
+	fmt.Printf("property   : %s\nrule       : %s\n             %s\nobligation : %s\nrecorded   : [%s] %s %s\n             %s\n", rp.Property, rp.Obligation.Rule, rp.RuleText, rp.Obligation.Key, rp.Obligation.Status, rp.Obligation.Pos, core.Short(rp.Obligation.Func), rp.Obligation.Detail)
+	for _, ob := range rep.Obs {
+		if ob.Key == rp.Obligation.Key {
+			fmt.Printf("now        : [%s] %s %s\n             %s\n", ob.Status, ob.Pos, core.Short(ob.Func), ob.Detail)
+			if ob.Status != "discharged" {
+				fmt.Printf("VIOLATION property=%s replay=%s\n", rp.Property, args[0])
+				return 1
+			}
+			return 0
+		}
+	}
+	fmt.Println("now        : the rule no longer produces this obligation on the current tree (construct gone or renamed); run the full check")
+	return 0
+}
+
+// cmdSelftest: checker QA — replays every registered breaking change; exit 1 if one is not reported.
+func cmdSelftest(args []string) int {
+	fs := flag.NewFlagSet("selftest", flag.ExitOnError)
+	prop := fs.String("property", "", "property (default all)")
+	repo := fs.String("repo", "/repo", "repository")
+	par := fs.Int("j", 4, "parallel processes")
+	fs.Parse(args)
+	res, err := runMutants(verifDir(), *repo, *prop, *par)
+	if err != nil {
+		fmt.Fprintln(os.Stderr, err)
+		return 2
+	}
+	bad := 0
+	for _, r := range res {
+		st := "reported"
+		switch {
+		case !r.Applies && r.Err == "":
+			st = "skipped (patch no longer applies)"
+		case !r.Detected:
+			st = "MISSED"
+			bad++
+		}
+		k := ""
+		if len(r.Keys) > 0 {
+			k = r.Keys[0]
+		}
+		fmt.Printf("%-14s %-4s %-10s %s %s\n", r.ID, r.Property, st, k, r.Err)
+	}
+	fmt.Printf("selftest: %d mutant runs, %d missed\n", len(res), bad)
+	if bad > 0 {
+		return 1
+	}
+	return 0
+}
 
 func init() {
+	extraCmds["mutant"] = cmdMutant
 	extraCmds["tokens"] = func(args []string) int {
 		// annverif tokens <relpkg> <key>
 		p, err := core.Load(core.LoadOpts{Repo: "/repo", Patterns: []string{"./eth/..."}, Ref: []string{core.RefMod + "/" + strings.TrimPrefix(args[0], "eth/")}})
@@ -32,9 +381,6 @@ func init() {
 		fmt.Println(err)
 		return 0
 	}
-}
-
-func init() {
 	extraCmds["roots"] = func(args []string) int {
 		p, err := core.Load(core.LoadOpts{Repo: "/repo", NeedCG: true})
 		if err != nil {
@@ -46,9 +392,6 @@ func init() {
 		fmt.Println(c.DebugRoots(args))
 		return 0
 	}
-}
-
-func init() {
 	extraCmds["sections"] = func(args []string) int {
 		p, err := core.Load(core.LoadOpts{Repo: "/repo", NeedCG: true})
 		if err != nil {
